@@ -18,7 +18,7 @@ class C15(Spec):
     theorems = ["Nun.C15_ack_unknown_noop", "Nun.C15_ack_idempotent", "Nun.C15_ack_foreign_keeps_counts",
                 "Nun.C15_counts", "Nun.C15_exact", "Nun.C15_drained", "Nun.C15_stuck_without_nodup"]
     rule = ("exhaustive: every sequence of exactly L events over {REG,ACK} x ops x nodes through the public "
-            "register_pending_opp / acknowledge_pending_opp (a sequence covers all its prefixes: the pending table "
+            "register_pending_opp / acknowledge_pending_opp, and the acknowledgement as the `ack` command on an authenticated link with the node's role changing in between (concedes an election, told of another primary, wins again) (a sequence covers all its prefixes: the pending table "
             "is dumped and compared with the Lean model after every event); plus seeded random sequences over 3 ops x 3 nodes. "
             "non-trivial = contains a registration and an acknowledgement that is duplicate, early or foreign; distinct by hash of the implementation trace")
     assumptions = ["register_pending_opp and acknowledge_pending_opp each hold pending_opps.write() throughout (one atomic step each)"]
@@ -33,6 +33,18 @@ class C15(Spec):
         ev = events(2, 2)
         for seq in itertools.product(ev, repeat=L):
             cases.append(["RESET"] + list(seq))
+        # the acknowledgement as it really arrives: the `ack <op> <node>` command on an authenticated link, with the node's role changing
+        # in between (it concedes an election, is told of another primary, wins again) — membership is stable, the count must still drain
+        pre = ["RESET primary,name=n1,pid=100", "SESS 1", "C 1 auth adm pw"]
+        roles = ["C 1 election candidate 1 nz", "C 1 set-primary nz", "C 1 election win", "ELECT"]
+        acks = lambda o: [f"C 1 ack {o} A", f"C 1 ack {o} B"]
+        for r1 in [None] + roles:
+            for r2 in [None] + roles:
+                for order in (0, 1):
+                    a = acks(7) if order == 0 else list(reversed(acks(7)))
+                    c = pre + ["REG 7 A", "REG 7 B"] + ([r1] if r1 else []) + [a[0]] + ([r2] if r2 else []) + [a[1], "C 1 ack 7 A", "C 1 ack 9 C"]
+                    cases.append(c)
+                    cases.append(pre + ["REG 7 A", "REG 8 A", "REG 8 B"] + ([r1] if r1 else []) + ["C 1 ack 8 B", "C 1 ack 7 A"] + ([r2] if r2 else []) + ["C 1 ack 8 A", "C 1 ack 8 A"])
         rng = core.XorShift(seed)
         ev3 = events(3, 3)
         for _ in range(1500 if tier == "quick" else 30000):
@@ -43,6 +55,9 @@ class C15(Spec):
     def nontrivial(self, case, impl):
         regs = set(); odd = False; anyack = False
         for l in case[1:]:
+            if not (l.startswith("REG ") or l.startswith("ACK ")): 
+                if l.startswith("C 1 ack "): anyack = True; odd = True
+                continue
             k, o, s = l.split(" ")
             if k == "REG": regs.add((o, s))
             else:
@@ -58,6 +73,7 @@ class C15(Spec):
         prev_dump = None
         for (inp, rest, dump) in core.parse_steps(impl):
             p = inp.split(" ")
+            if p[0] == "C" and len(p) >= 5 and p[2] == "ack": p = ["ACK", p[3], p[4]]       # the acknowledgement as a command
             pend = {}
             for d in dump:
                 m = re.match(r"D pend (\S+) rc=(\d+) ac=(\d+) ?(.*)", d)
